@@ -114,6 +114,8 @@ def _case(draw: Any, args: dict) -> dict:
         pool = [c for c in classes if current["moved"] or not (c.get("moved_from") == current["mod"] and "ref:moved_class_from_origin" not in c["tags"])]
         if not current["moved"]:
             pool = [c for c in pool if c["ref"] not in secluded]
+        if current.get("no_moved"):
+            pool = [c for c in pool if not c.get("moved_from")]  # (the members end up in stubs of other modules too)
         c = draw(st.sampled_from(pool))
         if c["kind"] == "generic":
             base: list = ["generic", c["ref"], [a_type(0) if depth else ["int"]]]
@@ -162,6 +164,18 @@ def _case(draw: Any, args: dict) -> dict:
             for _ in range(draw(st.sampled_from([0, 0, 1, 2]))):
                 d["members"].append(gt.func(namer.fresh("tm"), [gt.param(namer.fresh("q"), "pos", a_type(), None)], ret=a_type(), kind="method"))
     current["moved"] = False
+    # a private class whose public methods reference classes, inherited by public classes of two different modules (the
+    # inherited members are written into each subclass' stub, which then needs the imports too)
+    if len(modules) >= 2 and draw(st.booleans()):
+        home = modules[0]
+        current["mod"] = ".".join(home["path"])
+        mix = "_" + namer.fresh("Mix")
+        current["no_moved"] = True
+        home["decls"].append(gt.klass(mix, [gt.func(namer.fresh("inh"), [gt.param(namer.fresh("q"), "pos", a_type(), None)], ret=a_type(), kind="method") for _ in range(draw(st.integers(1, 2)))]))
+        plain = [m for m in modules if not (m["path"][-1] == "tools" and m["path"][-2] in {"api", "zext"}) and not m["path"][-1].startswith("_")]
+        for m in plain[: draw(st.integers(2, 3))]:
+            m["decls"].append(gt.klass(namer.fresh("Heir"), [], bases=[["raw", mix, [".".join(home["path"]), mix]]]))
+        current["no_moved"] = False
     for m in modules:
         current["mod"] = ".".join(m["path"])
         if m["path"][-1] == "tools" and m["path"][-2] in {"api", "zext"}:
